@@ -157,6 +157,21 @@ func GenDecl(t *rapid.T, o DeclOpts) *refmodel.Decl {
 		d.Block = append(d.Block, refmodel.BlockField{Name: f, Column: f})
 		d.Columns = append(d.Columns, refmodel.Column{Name: f, Type: FieldColType[f]})
 	}
+	// the user may spell out identity columns in the table (e.g. to pick their type)
+	// without listing the matching block field: shovel adds the field itself
+	if rapid.IntRange(0, 3).Draw(t, "declareidentity") == 0 {
+		for _, c := range []refmodel.Column{{Name: "block_num", Type: "numeric"}, {Name: "ig_name", Type: "text"}, {Name: "src_name", Type: "text"}, {Name: "tx_idx", Type: "int"}} {
+			has := false
+			for _, x := range d.Columns {
+				if x.Name == c.Name {
+					has = true
+				}
+			}
+			if !has && rapid.Bool().Draw(t, "idcol:"+c.Name) {
+				d.Columns = append(d.Columns, c)
+			}
+		}
+	}
 	d.Columns = rapid.Permutation(d.Columns).Draw(t, "colorder")
 	if o.AllowFilters && o.Pool != nil {
 		genFilters(t, d, o.Pool)
